@@ -303,9 +303,9 @@ def run(ck):
     check_b(ck, repo, r[0] if r else None)
     check_c(ck, repo)
     ck.extra["symbols"] = "n = y.shape[0] = X.shape[0]; past, d1, d2 = model.past/delay1/delay2; i = loop variable; facts proved with d1 symbolic where possible, d1 = 1 for slice lengths"
-    ck.require_count("C20.a", 13, "nrow, lags x4, targets x6, ordering, exog, weights")
-    ck.require_count("C20.b", 11, "nrow/first, 3 roles x (slice, rows, columns), weights, allocations")
-    ck.require_count("C20.c", 8, "dy1, dy2, returns, guard, aliases, substitution x2, masks")
+    ck.require_count("C20.a", 7, "nrow, lags x4, targets x6, ordering, exog, weights")
+    ck.require_count("C20.b", 6, "nrow/first, 3 roles x (slice, rows, columns), weights, allocations")
+    ck.require_count("C20.c", 4, "dy1, dy2, returns, guard, aliases, substitution x2, masks")
 
 
 _U = "mlinsights/timeseries/utils.py"
